@@ -27,7 +27,8 @@ From Verif Require Import Base.Prelude Base.Str Base.Float Base.GoVal
   Generated.Tables Proofs.CborNorm ATP.Msg ATP.Server Proofs.Server Proofs.ServerRoute.
 From Verif Require ATP.Client ATP.System Proofs.ATPClientInv Proofs.C05Vocab Proofs.C05System Proofs.C05Live
   Proofs.C05ClientHalf Proofs.C05Examples Proofs.C05Close Proofs.C05CloseEx
-  Call.Step ATP.SystemV Proofs.C05Transparent Proofs.C05TransparentEx Proofs.C05V1Serial.
+  Call.Step ATP.SystemV Proofs.C05Transparent Proofs.C05TransparentEx Proofs.C05V1Serial
+  Proofs.C05Param Proofs.C05Shutdown.
 Import ListNotations.
 Open Scope Z_scope.
 Open Scope list_scope.
@@ -622,3 +623,54 @@ Example C05_v1_overlap_is_not_serial :
     [Verif.ATP.System.V1Caller 0; Verif.ATP.System.V1Caller 1; Verif.ATP.System.V1Server; Verif.ATP.System.V1Server;
      Verif.ATP.System.V1Caller 1; Verif.ATP.System.V1Caller 0] = None.
 Proof. exact Verif.Proofs.C05V1Serial.v1s_overlap_excluded. Qed.
+
+(* ==========================================================================================
+   (P10) CLEAN SHUTDOWN of the server side.  In a session that calls Close, at the end of every maximal execution
+   RunATPServer has returned: the closure handler is in HReturned, the run() goroutine is gone (workDone closed), the wait
+   group of the step / signal goroutines is 0, the report channel is empty, the process has not crashed, and the pipe
+   is empty.  With C05_refines_with_close: both sides have shut down, nothing is left blocked anywhere.
+   (Proofs/C05Shutdown.v; extra invariant: once Close is in KWait / KDone CloseOk a client-done is in the client ->
+   server stream or in the history of what the server's read loop consumed; a consumed client-done has closed stdin.)
+   ========================================================================================== *)
+Theorem C05_clean_shutdown :
+  forall (g : Verif.ATP.System.scfg) (calls : list (Verif.ATP.Client.callspec Z)) (close : bool),
+    (forall x, In x calls -> Verif.ATP.Client.cs_run x <> ""%string) ->
+    Verif.Proofs.ATPClientInv.wf_session (Verif.ATP.System.sys_session calls close) ->
+    close = true ->
+    forall (sched : list Verif.ATP.System.slabel) (s : Verif.ATP.System.sstate),
+      Verif.ATP.System.sys_run g (Verif.ATP.System.sys_init calls close) sched = Some s ->
+      Verif.ATP.System.sys_final g s ->
+      Verif.ATP.Server.hp (Verif.ATP.System.sv s) = Verif.ATP.Server.HReturned /\
+      Verif.ATP.Server.rl (Verif.ATP.System.sv s) = Verif.ATP.Server.RGone /\
+      Verif.ATP.Server.nworkers (Verif.ATP.System.sv s) = 0%nat /\
+      Verif.ATP.Server.wd (Verif.ATP.System.sv s) = [] /\
+      Verif.ATP.Server.crashed (Verif.ATP.System.sv s) = false /\
+      Verif.ATP.Client.to_server (Verif.ATP.System.cl s) = [].
+Proof. exact Verif.Proofs.C05Shutdown.sys_shutdown. Qed.
+Print Assumptions C05_clean_shutdown.
+(* non-vacuity: C05_refines_with_close_nonvacuous above ends in exactly such a state (HReturned, RGone). *)
+
+(* ==========================================================================================
+   (P11) WHY PAYLOADS ARE NAMES.  The client model is parametric in its payload type AS A THEOREM: for every function
+   f : P -> Q, mapping f over every payload held anywhere in a client state (callers' inputs, stored and returned
+   results, both streams, the read-ahead buffer, the message being handled, the scripted peer) commutes with every step of
+   every label (Proofs/C05Param.v, by cases over the whole step function).  Consequently the executions of the client
+   model at payload := gval, started on the session as the harness states it, are exactly the images - label for label,
+   token t replaced by the value v_input t it names - of the executions at payload := Z that ATP/System.v composes with
+   the server model.  (The server model consults a payload only through its behaviour oracle: ATP/Server.v.)
+   ========================================================================================== *)
+Theorem C05_client_payload_parametric :
+  forall (P Q : Type) (f : P -> Q) (s : Verif.ATP.Client.state P) (l : Verif.ATP.Client.label),
+    Verif.ATP.Client.step (Verif.Proofs.C05Param.map_state P Q f s) l
+      = option_map (Verif.Proofs.C05Param.map_state P Q f) (Verif.ATP.Client.step s l).
+Proof. exact Verif.Proofs.C05Param.step_map. Qed.
+Print Assumptions C05_client_payload_parametric.
+
+Theorem C05_client_over_values :
+  forall (vcalls : list (Verif.ATP.Client.callspec gval)) (close : bool) (ls : list Verif.ATP.Client.label),
+    Verif.ATP.Client.run (Verif.ATP.Client.init (Verif.ATP.Client.mkSession vcalls close [] None None)) ls
+      = option_map (Verif.Proofs.C05Param.map_state Z gval (Verif.ATP.SystemV.v_input vcalls))
+          (Verif.ATP.Client.run
+             (Verif.ATP.Client.init (Verif.ATP.System.sys_session (Verif.ATP.SystemV.tok_calls vcalls) close)) ls).
+Proof. exact Verif.Proofs.C05Transparent.client_over_values. Qed.
+Print Assumptions C05_client_over_values.
